@@ -53,7 +53,7 @@ impl Condvar {
         mutex.release_lock();
 
         // Disable the current thread
-        rt::park(location);
+        rt::block(location);
 
         // Acquire the lock again
         mutex.acquire_lock(location);
@@ -72,7 +72,7 @@ impl Condvar {
             trace!(state = ?self.state, ?thread, "Condvar::notify_one");
 
             if let Some(thread) = thread {
-                execution.threads.unpark(thread);
+                execution.threads.wake(thread);
             }
         })
     }
@@ -87,7 +87,7 @@ impl Condvar {
             trace!(state = ?self.state, threads = ?state.waiters, "Condvar::notify_all");
 
             for thread in state.waiters.drain(..) {
-                execution.threads.unpark(thread);
+                execution.threads.wake(thread);
             }
         })
     }
